@@ -542,6 +542,8 @@ def run(ctx):
     from .c02 import r02f, r02f2
     r02f(ctx)     # the size-derived cap of compound edits is an upper bound only if no node has size 0
     r02f2(ctx)    # ... containers included
+    from .c03 import r03a
+    r03a(ctx)     # an interval that is not computed from the sub-edits the script lists need not contain the script's cost
     from .c05 import r05c
     from .c17 import r17b, r17g
     r05c(ctx)     # a candidate / sub-edit taken from a one-shot iterator and then dropped makes the interval unsound
